@@ -226,6 +226,7 @@ type oracleAtomic struct {
 	matchedB  int64
 	failAtK   int // counted for NT
 	multiFail int
+	storeFails int
 }
 
 func (o *oracleAtomic) before(r *hRun, step bson.D) error {
@@ -250,6 +251,18 @@ func (o *oracleAtomic) after(r *hRun, step, res bson.D) error {
 		if dumpA != o.dumpB {
 			return fmt.Errorf("a read changed the database state")
 		}
+		return nil
+	}
+	if r.env.storeFailed {
+		// the commit could not be persisted: the call fails as a whole
+		r.x.Class("store-failure:" + op)
+		if ec == "" {
+			return fmt.Errorf("the store failed but the call reported success")
+		}
+		if dumpA != o.dumpB {
+			return fmt.Errorf("the store failed and the call returned an error but the database changed:\n--- before\n%s--- after\n%s", o.dumpB, dumpA)
+		}
+		o.storeFails++
 		return nil
 	}
 	switch op {
